@@ -61,7 +61,8 @@ func c08Rules(p *core.Prog, r *core.Run) {
 	// --- I7: the reconstructed hello cannot grow beyond the outer hello: each
 	// outer extension is referenced at most once (the Appendix B cursor only
 	// moves forward), so one record cannot be amplified into many
-	refCursor(p, r, m, "C08.I7")
+	// (and the marker itself at most once: the rules G8-G11 of C04)
+	c04References(p, r, m, "C08.I7.")
 
 	// --- I3
 	depth := loopRules(p, r, "C08.I3", scope, func(fn *ssa.Function, lc loopClass) (string, string, bool) {
@@ -70,12 +71,22 @@ func c08Rules(p *core.Prog, r *core.Run) {
 		}
 		// shrink: header tests len(writeBuf) >= 5; every back edge follows writeBuf = writeBuf[n:] with n == 5+length
 		body := core.Loops(fn)[lc.Header]
-		iff, ok := lc.Header.Instrs[len(lc.Header.Instrs)-1].(*ssa.If)
-		if !ok {
-			return "", "", false
+		// some test of len(writeBuf) leaves the loop (as the loop condition or as
+		// an `if ... break` inside it)
+		lenExit := false
+		for b := range body {
+			iff, ok := b.Instrs[len(b.Instrs)-1].(*ssa.If)
+			if !ok || (body[b.Succs[0]] && body[b.Succs[1]]) {
+				continue
+			}
+			f := p.FactOf(core.Guard{Cond: iff.Cond, Pol: true, If: iff})
+			for _, g := range []core.Fact{f, f.Flipped()} {
+				if g.L != nil && g.L.Op == "call" && g.L.Name == "len" && g.L.Args[0].Op == "field" && g.L.Args[0].Obj == m.fConn["writeBuf"] {
+					lenExit = true
+				}
+			}
 		}
-		f := p.FactOf(core.Guard{Cond: iff.Cond, Pol: true, If: iff})
-		if !(f.Op == ">=" && f.R.Name == "5" && f.L.Op == "call" && f.L.Name == "len" && f.L.Args[0].Op == "field" && f.L.Args[0].Obj == m.fConn["writeBuf"]) {
+		if !lenExit {
 			return "", "", false
 		}
 		for b := range body {
